@@ -40,6 +40,7 @@ MUTATING_METHODS = {
     "__delitem__", "appendleft", "popleft", "move_to_end", "difference_update",
     "intersection_update", "symmetric_difference_update",
 }
+_CONTAINER_METHODS = MUTATING_METHODS | {"get", "items", "keys", "values", "copy", "index", "count", "union", "intersection", "difference"}
 CONTAINER_KINDS = {"dict", "list", "set", "tuple", "frozenset", "gen", "defaultdict"}
 BUILTIN_KIND = {
     "tuple": "tuple", "list": "list", "dict": "dict", "set": "set", "frozenset": "frozenset",
@@ -508,7 +509,9 @@ class Interp:
                         out.add(self.src_ext(a, ("a", attr)))
                 if not handled:
                     t = self.tg.unfold_rec(self.src_type(a))
-                    if clss or t[0] in ("tuple", "tuplefix", "list", "dict", "set", "frozenset") or (t[0] == "leaf" and t[1] in ("str", "int", "bytes", "float")):
+                    if for_call and not clss and attr in _CONTAINER_METHODS:
+                        out.add(("extm", attr, a))  # method of a dict / list reached from an argument of unknown static type
+                    elif clss or t[0] in ("tuple", "tuplefix", "list", "dict", "set", "frozenset") or (t[0] == "leaf" and t[1] in ("str", "int", "bytes", "float")):
                         out.add(("extm", attr, a)) if for_call else out.update(self.synth("attr", a))
                     else:
                         out.add(self.src_ext(a, ("a", attr)))
